@@ -82,7 +82,7 @@ def tx_term(t):
     # tx id code 0 stands for the transaction id (first topic); module "m" = 1, always alphanumeric
     txr = "(Build_tx 0 1 true %s %s %s)" % (script(s["before"]), cmd, script(s["after"]))
     evs = clist(t.get("ev") or [], lambda e: "(%d, %s, %s, %d, %d, %s)" % (e["n"], clist(e["d"] or []), clist(e["t"] or []), e["i"], e["h"], cbool(e["txok"])))
-    return "(%s, %d, %s, %s)" % (txr, t["r"] + 1, evs, clist(t.get("obs") or [], obs))
+    return "(%s, %s, %d, %s, %s)" % (txr, cbool(t.get("dry", False)), t["r"] + 1, evs, clist(t.get("obs") or [], obs))
 
 
 RES = {"ok": "ROk'", "mismatch": "RMismatch'", "nodiff": "RNoDiff'", "behind": "RBehind", "conflict": "RConflict"}
@@ -121,7 +121,7 @@ def evaluate(ck, recs):
             if s["t"] == "block":
                 for t in s.get("txs") or []:
                     ck.count()
-                    ck.nontrivial(("tx", json.dumps(t["s"], sort_keys=True), t["r"]))
+                    ck.nontrivial(("tx", json.dumps(t["s"], sort_keys=True), t["r"], t.get("dry", False)))
             else:
                 ck.nontrivial((s["t"], r["id"], s["h"], s.get("last"), s["res"], s["exp"]))
         if code == 0:
@@ -157,7 +157,7 @@ def run(ck, replay_file=None):
     ck.cov["rule"] = ("scenarios = random sequences of blocks (1-4 transactions; a transaction = Before/AfterCommandExecute hooks and a command, "
                       "each a random script of set/delete/get over three module stores incl. empty keys and values, revertible and "
                       "unrevertible events incl. invalid ones, Snapshot/RestoreSnapshot on the context and on store views incl. ids that hit "
-                      "ExecuteTransaction's own snapshot, then success or failure; unknown commands), commits (dry run / no / right / wrong "
+                      "ExecuteTransaction's own snapshot, then success or failure; unknown commands; dry-run executions interleaved), commits (dry run / no / right / wrong "
                       "expected root), reverts (no / right / wrong expected root) and restarts with the engine 0-2 blocks behind, ahead, or with "
                       "a wrong root. Non-trivial/distinct: transactions distinct by (script, result); revert/restart steps distinct by "
                       "(scenario, heights, outcome)")
